@@ -29,6 +29,8 @@ inline std::vector<u64> int_type_values(int t, int w, int r, i64 window, bool fu
   for( i64 x : S_set(w, r, true, true) ) v.push_back(static_cast<u64>(x) & t_mask(t));
   for( i128 c : { static_cast<i128>(0), static_cast<i128>(1) << 15, static_cast<i128>(1) << 16, static_cast<i128>(2147483647ll), static_cast<i128>(1) << 31, static_cast<i128>(1) << 32, static_cast<i128>(1) << 63, (static_cast<i128>(1) << 64) - 1 } )
     for( i64 d = -window; d <= window; ++d ) { v.push_back(static_cast<u64>(c + d) & t_mask(t)); v.push_back(static_cast<u64>(-c + d) & t_mask(t)); }
+  for( i64 x : D_set(0) ) v.push_back(static_cast<u64>(x) & t_mask(t));          // digit-pattern words (32-bit digits), see common.h
+  if( TBITS[t] == 32 ) for( u64 hi : { 0ull, 1ull, 0x7fffull, 0x8000ull, 0xfffeull, 0xffffull, 0x5555ull, 0xaaaaull } ) for( u64 lo : { 0ull, 1ull, 0x7fffull, 0x8000ull, 0xfffeull, 0xffffull, 0x5555ull, 0xaaaaull } ) v.push_back((hi << 16) | lo);
   std::sort(v.begin(), v.end()); v.erase(std::unique(v.begin(), v.end()), v.end());
   return v;
   }
